@@ -76,7 +76,15 @@ func cmdIP(args []string) {
 				flips++
 			}
 		}
-		w.Emit(ev.M{"ev": "Chain", "g": g, "reserved": res, "inter": inter})
+		// the same chain with the IPv4 network written in IPv4-mapped (16-byte) form: ::ffff:a.b.c.d/(96+p)
+		interMapped := []bool{}
+		if len(g) == 2 {
+			for p := 0; p <= total; p++ {
+				m := maskOf(96+p, 128)
+				interMapped = append(interMapped, util.IntersectsIANAReserved(net.IPNet{IP: ip.To16().Mask(m), Mask: m}))
+			}
+		}
+		w.Emit(ev.M{"ev": "Chain", "g": g, "reserved": res, "inter": inter, "interMapped": interMapped})
 		// a network written with host bits set, and an address inside it that is not its base
 		p := rng.Intn(total + 1)
 		m := maskOf(p, total)
